@@ -1979,11 +1979,18 @@ pub fn jobs(tier: &str) -> Vec<Job> {
     let max_states: u64 = if thorough { 6_000_000 } else { 400_000 };
     let mut jobs = Vec::new();
     let mut add = |spec: DescSpec, label: &str, menu: Vec<Req>, max_live: usize, probe: bool| {
-        // only requests this worker could ever be given (the server's capability test)
-        let probe_alloc = AllocatorProbe::new(&build_descriptor(&spec));
+        // only requests this worker could ever be given: every entry asks for no more than the
+        // worker provides (the rule of the server's capability test, restated here rather than
+        // called, so that a change of the product's test cannot silently shrink the menu)
+        let uni = universe(&spec);
         let menu: Vec<Req> = menu
             .into_iter()
-            .filter(|r| probe_alloc.is_capable_to_run(&build_request(r)))
+            .filter(|r| {
+                r.0.iter().all(|e| {
+                    let size = uni.get(e.res as usize).map(|u| u.size).unwrap_or(0);
+                    if e.pol == Pol::All { size > 0 } else { e.amount <= size }
+                })
+            })
             .collect();
         jobs.push(Job {
             spec,
